@@ -56,6 +56,49 @@ def _on_alarm(signum, frame):
     raise WatchdogTimeout("a single simulated run exceeded %d s of wall-clock time" % CASE_WALL_S)
 
 
+class CpuBudgetExceeded(BaseException):
+    """One simulated run has used more CPU time than CASE_CPU_S.  Unlike the wall-clock watchdog this does not depend on how
+    loaded the machine is: the slowest run on the unchanged tree needs a few seconds, so a run that burns a minute of CPU is
+    a library that does not terminate for this input / history - a liveness violation, with a replay file like any other."""
+
+
+CASE_CPU_S = 60
+
+
+def _on_cpu(signum, frame):
+    raise CpuBudgetExceeded()
+
+
+def guarded_execute(eng, case):
+    """eng.execute(case) under the CPU budget."""
+    main = threading.current_thread() is threading.main_thread()
+    if main:
+        signal.signal(signal.SIGVTALRM, _on_cpu)
+        signal.setitimer(signal.ITIMER_VIRTUAL, CASE_CPU_S)
+    try:
+        try:
+            return eng.execute(case)
+        finally:
+            if main:
+                signal.setitimer(signal.ITIMER_VIRTUAL, 0)
+    except CpuBudgetExceeded:
+        res = {"ok": False, "oracle": "liveness", "known": None, "digest": None,
+               "detail": "one simulated run used more than %d s of CPU time (the slowest run on the unchanged tree needs a few "
+                         "seconds): the library does not terminate for this input or history" % CASE_CPU_S,
+               "stats": {"faults": {}, "probes": {"cpu_budget_exceeded": 1}, "steps": 0, "reach": [], "nontrivial": False,
+                         "fault_free": False}}
+        # whatever the aborted run had installed or half-changed: back to a defined state
+        try:
+            from . import probes
+            probes.set_budget(None)
+            probes.set_state_fn(None)
+        except Exception:
+            pass
+        if hasattr(eng, "block_start"):
+            eng.block_start()
+        return res
+
+
 def _props_of(entry):
     return entry.get("properties") or [entry.get("property")]
 
@@ -92,7 +135,7 @@ def run_units(prop, stream, seed, indices, deadline=None, keep_failures=12, want
         for ci, case in enumerate(cases):
             signal.alarm(CASE_WALL_S)
             try:
-                res = eng.execute(case)
+                res = guarded_execute(eng, case)
             finally:
                 signal.alarm(0)
             if isolate:
@@ -130,12 +173,73 @@ def run_units(prop, stream, seed, indices, deadline=None, keep_failures=12, want
     return agg
 
 
-def _worker(args):
+def _worker(args, marker_dir=None, tid=None):
     faulthandler.dump_traceback_later(1500, exit=True)
+    if marker_dir is not None:
+        # which task this worker is in, for the parent to know should the interpreter die under it
+        open(os.path.join(marker_dir, "started-%d" % tid), "w").close()
     try:
         return run_units(*args)
     finally:
         faulthandler.cancel_dump_traceback_later()
+        if marker_dir is not None:
+            try:
+                open(os.path.join(marker_dir, "finished-%d" % tid), "w").close()
+            except OSError:
+                pass
+
+
+def _run_pool(tasks, workers, on_part):
+    """Run the tasks on a pool of forked workers.  A worker that dies abruptly (the interpreter itself crashing under some
+    change of the library) must not take the whole batch with it: the tasks that were not running at that moment are re-run on
+    a new pool, the ones that were are re-run one at a time, and those that kill their worker again are returned."""
+    import shutil
+    import tempfile
+    from concurrent.futures.process import BrokenProcessPool
+    ctx = multiprocessing.get_context("fork")
+    pending = list(enumerate(tasks))
+    crashed = []
+    rounds = 0
+    while pending:
+        rounds += 1
+        marker_dir = tempfile.mkdtemp(prefix="h5sim_mark_")
+        consumed = set()
+        broke = False
+        futs = {}
+        try:
+            with cf.ProcessPoolExecutor(max_workers=max(1, min(workers, len(pending))), mp_context=ctx) as ex:
+                futs = {ex.submit(_worker, t, marker_dir, tid): (tid, t) for tid, t in pending}
+                try:
+                    for fut in cf.as_completed(futs):
+                        part = fut.result()
+                        consumed.add(futs[fut][0])
+                        on_part(futs[fut][1], part)
+                except BrokenProcessPool:
+                    broke = True
+            if not broke:
+                break
+            # results that were ready but not yet looked at
+            for fut, (tid, t) in futs.items():
+                if tid not in consumed and fut.done() and not fut.cancelled() and fut.exception() is None:
+                    consumed.add(tid)
+                    on_part(t, fut.result())
+            marks = set(os.listdir(marker_dir))
+        finally:
+            shutil.rmtree(marker_dir, ignore_errors=True)
+        unfinished = [(tid, t) for tid, t in pending if tid not in consumed]
+        suspects = [(tid, t) for tid, t in unfinished if "started-%d" % tid in marks and "finished-%d" % tid not in marks]
+        others = [(tid, t) for tid, t in unfinished if (tid, t) not in suspects]
+        for tid, t in suspects:
+            try:
+                with cf.ProcessPoolExecutor(max_workers=1, mp_context=ctx) as ex1:
+                    on_part(t, ex1.submit(_worker, t).result())
+            except BrokenProcessPool:
+                crashed.append(t)
+        pending = others
+        if rounds >= 8:
+            crashed.extend(t for _tid, t in pending)
+            break
+    return crashed
 
 
 def merge(total, part):
@@ -184,13 +288,11 @@ def run_batch(prop, tier, seed, workers, units_override=None, wall_cap=None, qui
             merge(total, part)
             _stream_acc(per_stream, t[1], part)
     else:
-        ctx = multiprocessing.get_context("fork")
-        with cf.ProcessPoolExecutor(max_workers=workers, mp_context=ctx) as ex:
-            futs = {ex.submit(_worker, t): t for t in tasks}
-            for fut in cf.as_completed(futs):
-                part = fut.result(timeout=cap + 1800)
-                merge(total, part)
-                _stream_acc(per_stream, futs[fut][1], part)
+        def on_part(t, part):
+            merge(total, part)
+            _stream_acc(per_stream, t[1], part)
+        crashed = _run_pool(tasks, workers, on_part)
+        total["crashed"] = [(t[1], t[3][0], t[3][-1]) for t in crashed]     # (stream, first unit, last unit)
     total["wall_s"] = time.time() - t0
     total["plan"] = plan
     total["per_stream"] = per_stream
@@ -267,10 +369,10 @@ class Composite(object):
             eng.block_start()
         for c in comp.get("prelude") or []:
             try:
-                eng.execute(c)
+                guarded_execute(eng, c)
             except Exception:
                 pass
-        return eng.execute(comp["case"])
+        return guarded_execute(eng, comp["case"])
 
     def shrinks(self, comp):
         pre = comp.get("prelude") or []
@@ -415,6 +517,10 @@ def check(prop, tier, workers=None, units=None, wall_cap=None, selfcheck=True):
                              "process (rc=%s/%s)" % (path, rc, rc0))
                 exit_code = max(exit_code, 2)
 
+    if total.get("crashed"):
+        lines.append("HARNESS-ERROR: the interpreter itself died (signal) while executing %d block(s) of units, also when each was "
+                     "re-run alone: %s - not counted as violations" % (len(total["crashed"]), total["crashed"][:6]))
+        exit_code = max(exit_code, 2)
     det = {"checked": 0, "diverged": 0}
     if selfcheck:
         det = determinism_selfcheck(prop, seed, pool_digests=total.get("unit_digests"))
@@ -422,11 +528,10 @@ def check(prop, tier, workers=None, units=None, wall_cap=None, selfcheck=True):
             lines.append("HARNESS-ERROR: determinism self-check diverged: %s" % (det,))
             exit_code = max(exit_code, 2)
 
-    if violations and exit_code != 2:
+    if violations:
+        # every entry of `violations` was reproduced in this process, minimised, written out and reproduced once more from its
+        # replay file in a fresh interpreter: it stands whatever else went wrong in the batch (harness errors are printed too)
         exit_code = 1
-    if exit_code == 2:
-        # never print a VIOLATION line together with a harness error
-        lines = [ln.replace("VIOLATION property=", "SUSPECT property=") for ln in lines]
 
     wall = time.time() - t0
     write_evidence(prop, tier, seed, eng, total, known_seen, violations, det, wall, workers)
